@@ -9,6 +9,7 @@ import (
 
 	"github.com/gagliardetto/solana-go"
 	"github.com/rpcpool/yellowstone-faithful/compactindexsized"
+	"github.com/rpcpool/yellowstone-faithful/deprecated/compactindex36"
 	"github.com/sourcegraph/jsonrpc2"
 	"google.golang.org/grpc/codes"
 	"google.golang.org/grpc/status"
@@ -78,6 +79,9 @@ func (multi *MultiEpoch) findEpochNumberFromSignature(ctx context.Context, sig s
 			}
 			if _, err := epoch.FindCidFromSignature(ctx, sig); err == nil {
 				return epochNumber, nil
+			} else if !isIndexNotFound(err) {
+				// The index could not be read (e.g. truncated file): that is not "not found".
+				return 0, fmt.Errorf("failed to look up signature in epoch %d: %w", epochNumber, err)
 			}
 			// Not found in this epoch.
 			return 0, ErrNotFound
@@ -101,6 +105,12 @@ func (multi *MultiEpoch) findEpochNumberFromSignature(ctx context.Context, sig s
 	}
 	// The signature was found in one of the epochs.
 	return val, nil
+}
+
+// isIndexNotFound reports whether err is the "key is not in the index" answer of one of the
+// compact index formats (as opposed to a failure to read the index).
+func isIndexNotFound(err error) bool {
+	return errors.Is(err, compactindexsized.ErrNotFound) || errors.Is(err, compactindex36.ErrNotFound)
 }
 
 func (multi *MultiEpoch) handleGetTransaction(ctx context.Context, conn *requestContext, req *jsonrpc2.Request) (*jsonrpc2.Error, error) {
